@@ -121,6 +121,12 @@ pub fn gen_base(seed: u64, idx: u64) -> Plan {
                     steps.push(Step::Send { data: Blob(b[k..].to_vec()), completes: Some(0) });
                     steps.push(Step::AwaitResponses { count: 1, max_ms: AWAIT_MS });
                 } else {
+                    if r.chance(1, 2) {
+                        // ... abandoned only minutes later: a client that has
+                        // not even finished a request head has no claim on
+                        // shutdown (hyper's header timeout ends it after 30 s)
+                        steps.push(Step::Sleep { ms: r.range(70_000, 250_000) });
+                    }
                     steps.push(Step::Close);
                 }
                 reqs.push(w.plan());
@@ -340,9 +346,28 @@ pub fn check_c17(
             saw_eof.entry(e.conn).or_insert(e.seq);
         }
     }
+    // nor is the hang-up of a client that never got as far as a complete
+    // request head: there is no request of its that shutdown could owe anything
+    let mut headless: std::collections::BTreeSet<u32> = std::collections::BTreeSet::new();
+    for (ci, cp) in plan.conns.iter().enumerate() {
+        if !matches!(cp.kind, ConnKind::H1 | ConnKind::Tls) {
+            continue;
+        }
+        let mut sent = Vec::new();
+        for st in &cp.steps {
+            if let Step::Send { data, .. } = st {
+                sent.extend_from_slice(&data.0);
+            }
+        }
+        if !sent.windows(4).any(|w| w == b"\r\n\r\n") {
+            if let Some(id) = out.conns[ci].conn_id {
+                headless.insert(id);
+            }
+        }
+    }
     for e in &out.events {
         if matches!(e.kind, Ev::ClientClose | Ev::ClientReset | Ev::ClientHalfClose)
-            && saw_eof.get(&e.conn).map(|q| e.seq > *q).unwrap_or(false)
+            && (saw_eof.get(&e.conn).map(|q| e.seq > *q).unwrap_or(false) || headless.contains(&e.conn))
         {
             continue;
         }
